@@ -232,8 +232,14 @@ func allJournalsWithPaths(resolved *include.ResolvedJournal, currentPath string,
 		for path, journal := range resolved.Files {
 			result[path] = journal
 		}
-		if resolved.Primary != nil && currentPath != "" {
-			result[currentPath] = resolved.Primary
+		// the primary journal belongs to the file it was parsed from (the workspace root when the tree is the
+		// workspace's), which is not necessarily the document the request came from
+		primaryPath := resolved.PrimaryPath
+		if primaryPath == "" {
+			primaryPath = currentPath
+		}
+		if resolved.Primary != nil && primaryPath != "" {
+			result[primaryPath] = resolved.Primary
 		}
 	} else if currentJournal != nil && currentPath != "" {
 		result[currentPath] = currentJournal
